@@ -144,7 +144,11 @@ def runCmd (b : B) (what : List String) : Except String (List String) := do
   | ["obj"] => return [s!"f {showRat c.objective}", "end"]
   | ["grid"] =>
       return [s!"tau {showRats ((List.range (c.N+1)).map c.tau)}"] ++
-        (List.range c.N).map (fun k => s!"intg {k} {showRats ((List.range (c.M+1)).map (intgTime c.tau c.M k))}") ++ ["end"]
+        (List.range c.N).map (fun k => s!"intg {k} {showRats ((List.range (c.M+1)).map (intgTime c.tau c.M k))}") ++
+        [s!"dtnode {showRats (((List.range c.N).map Node.at ++ [Node.final]).map (fun q => (c.envNode q #[]).DT))}",
+         s!"dtcnode {showRats (((List.range c.N).map Node.at ++ [Node.final]).map (fun q => (c.envNode q #[]).DTc))}",
+         s!"dtstep {showRats ((List.range c.N).flatMap (fun k => (List.range c.M).map (fun i => (c.envStep k i).DT)))}",
+         s!"dtcstep {showRats ((List.range c.N).flatMap (fun k => (List.range c.M).map (fun i => (c.envStep k i).DTc)))}"] ++ ["end"]
   | ["states"] =>
       return (List.range (c.N+1)).map (fun k => s!"X {k} {showRats (c.Xn k).toList}") ++
         (List.range (c.N+1)).map (fun k => s!"Q {k} {showRats (c.Qn k).toList}") ++
